@@ -7,123 +7,10 @@ window model (`KV.FilePiece.runOp`) run with the same backend, `min_buffer` and 
 harness/c18.cc (the shim's sizes are reproduced by `shimMix`); the right half is the spec on
 the whole remaining byte string (`KV.FilePiece.specOp`).
 
-The concrete number grammar (what `strtol`, `strtoul` and double-conversion's
-`StringToDouble/StringToFloat` accept with kenlm's flags, and kenlm's NaN test in
-`ParseNumber`) lives here: it is the trusted third-party parameter of the theorems. -/
+The concrete number grammar (`KV.FilePiece.grammar`: what `strtol`, `strtoul` and double-conversion's
+`StringToDouble/StringToFloat` accept with kenlm's flags, and kenlm's NaN test in `ParseNumber`) is in
+Model/FilePiece.lean; it is the trusted third-party parameter of the theorems. -/
 open KV KV.Proto KV.FilePiece
-
-/-! ### number grammar -/
-def isDigit (b : Byte) : Bool := 48 ≤ b && b ≤ 57
-def digitsVal (ds : List Byte) : Nat := ds.foldl (fun a d => a * 10 + (d - 48)) 0
-
-def splitSign (s : List Byte) : Bool × Bool × List Byte :=   -- (hasSign, negative, rest)
-  match s with
-  | 43 :: r => (true, false, r)
-  | 45 :: r => (true, true, r)
-  | _ => (false, false, s)
-
-/-- `strtol(str, &end, 10)` + kenlm's `errno || end == str` test -/
-def gLong (s : List Byte) : Option (Int × Nat) :=
-  let s0 := s.dropWhile isSpace
-  let (hs, neg, r) := splitSign s0
-  let ds := r.takeWhile isDigit
-  if ds.isEmpty then none else
-  let m := digitsVal ds
-  let cnt := (s.length - s0.length) + (if hs then 1 else 0) + ds.length
-  if neg then (if m ≤ 2^63 then some (-(m : Int), cnt) else none)
-  else (if m < 2^63 then some ((m : Int), cnt) else none)
-
-/-- `strtoul`: a minus sign negates modulo 2^64; only the magnitude can overflow -/
-def gULong (s : List Byte) : Option (Int × Nat) :=
-  let s0 := s.dropWhile isSpace
-  let (hs, neg, r) := splitSign s0
-  let ds := r.takeWhile isDigit
-  if ds.isEmpty then none else
-  let m := digitsVal ds
-  let cnt := (s.length - s0.length) + (if hs then 1 else 0) + ds.length
-  if m ≥ 2^64 then none
-  else some (((if neg then (2^64 - m) % 2^64 else m : Nat) : Int), cnt)
-
-inductive Conv
-  | junk                                   -- junk_string_value_ / empty_string_value_ = NaN, count 0
-  | nan (cnt : Nat)
-  | inf (neg : Bool) (cnt : Nat)
-  | val (neg : Bool) (m : Nat) (e : Int) (cnt : Nat)
-
-def startsWith (l p : List Byte) : Bool := l.take p.length == p
-
-/-- `StringToDoubleConverter::StringToIeee` with ALLOW_TRAILING_JUNK | ALLOW_LEADING_SPACES,
-"inf", "NaN" (util/double-conversion/string-to-double.cc:419ff); the input starts at a non-space. -/
-def conv (s : List Byte) : Conv :=
-  if s.isEmpty then .junk else
-  let n := s.length
-  let (hs, neg, c1) := splitSign s
-  match c1 with
-  | [] => .junk
-  | c :: _ =>
-    if hs && isSpace c then .junk
-    else if c == 105 then (if startsWith c1 [105, 110, 102] then .inf neg (n - (c1.length - 3)) else .junk)
-    else if c == 78 then (if startsWith c1 [78, 97, 78] then .nan (n - (c1.length - 3)) else .junk)
-    else
-      let zs := c1.takeWhile (· == 48)
-      let c2 := c1.dropWhile (· == 48)
-      let ip := c2.takeWhile isDigit
-      let c3 := c2.dropWhile isDigit
-      let (fr, c4) : List Byte × List Byte := match c3 with
-        | 46 :: r => (r.takeWhile isDigit, r.dropWhile isDigit)
-        | _ => ([], c3)
-      -- "." alone (no digit anywhere) is junk; "5." and "0." are numbers and consume the point
-      if zs.isEmpty && ip.isEmpty && fr.isEmpty then .junk
-      else
-        let (ex, c5) : Int × List Byte := match c4 with
-          | e :: r =>
-            if e == 101 || e == 69 then
-              let (_, eneg, r2) := splitSign r
-              let ds := r2.takeWhile isDigit
-              if ds.isEmpty then (0, c4)
-              else
-                let num := min (digitsVal ds) 1073741823
-                ((if eneg then -(num : Int) else (num : Int)), r2.dropWhile isDigit)
-            else (0, c4)
-          | [] => (0, c4)
-        .val neg (digitsVal (ip ++ fr)) (ex - (fr.length : Int)) (n - c5.length)
-
-def numDigits (m : Nat) : Nat := (toString m).length
-
-def toDoubleBits (neg : Bool) (m : Nat) (e : Int) : Nat :=
-  let mag : Float :=
-    if m == 0 then 0.0
-    else if e + numDigits m > 400 then (1.0 : Float) / 0.0
-    else if e + numDigits m < -400 then 0.0
-    else if e ≥ 0 then Float.ofScientific m false e.toNat else Float.ofScientific m true (-e).toNat
-  ((if neg then -mag else mag).toBits).toNat
-
-def toFloatBits (neg : Bool) (m : Nat) (e : Int) : Nat :=
-  let mag : Float32 :=
-    if m == 0 then 0.0
-    else if e + numDigits m > 400 then (1.0 : Float32) / 0.0
-    else if e + numDigits m < -400 then 0.0
-    else if e ≥ 0 then Float32.ofScientific m false e.toNat else Float32.ofScientific m true (-e).toNat
-  ((if neg then -mag else mag).toBits).toNat
-
-/-- value used for NaN in the protocol (`V nan`) -/
-def nanCode : Int := -1
-
-/-- kenlm's `ParseNumber(StringPiece str, float/double&)`: the converter, then
-`isnan(out) && str != "NaN" && str != "nan"` ⇒ ParseNumberException. -/
-def gFloat (dbl : Bool) (s : List Byte) : Option (Int × Nat) :=
-  let ok := s == [78, 97, 78] || s == [110, 97, 110]
-  match conv s with
-  | .junk => if ok then some (nanCode, 0) else none
-  | .nan cnt => if ok then some (nanCode, cnt) else none
-  | .inf neg cnt => some (((if dbl then toDoubleBits neg 1 1000 else toFloatBits neg 1 1000 : Nat) : Int), cnt)
-  | .val neg m e cnt => some (((if dbl then toDoubleBits neg m e else toFloatBits neg m e : Nat) : Int), cnt)
-
-def grammar : NumKind → Grammar
-  | .float => gFloat false
-  | .double => gFloat true
-  | .long => gLong
-  | .ulong => gULong
 
 /-! ### the shim's read sizes -/
 def m64 : Nat := 2^64
